@@ -27,6 +27,7 @@ void vp_nothrow(bool on);               // while on: any C++ exception thrown is
 #ifdef VP_PATH
 extern "C" unsigned vp_fix(unsigned x);    // path engine: x made concrete, one path per feasible value (solver-enumerated)
 extern "C" void vp_sched(unsigned preemptions); // path engine: explore thread schedules with at most this many preemptions from here on
+#define VP_SCHED_LOADS 0x100u               // or-ed into vp_sched's argument: atomic loads are preemption points too
 extern "C" unsigned vp_pick(unsigned n);   // path engine: a value in [0,n), one path per value
 #else
 static inline unsigned vp_pick(unsigned n) { unsigned v = vp_nondet_u32(); vp_assume(v < n); return v; }
